@@ -129,7 +129,7 @@ def open_text_io_handle_for_writing(fh: typing.Union[str, typing.IO],
             logger.debug(f'Looks like a gzipped data, compressing on the fly')
             return gzip.open(fh, mode='wt', newline='', encoding=encoding)
         else:
-            return open(fh, 'w')
+            return open(fh, 'w', encoding=encoding)
     elif isinstance(fh, (typing.BinaryIO, io.BufferedIOBase, io.RawIOBase)):
         logger.debug(f'Looks like a binary IO')
         return io.TextIOWrapper(fh, encoding=encoding)
